@@ -129,7 +129,7 @@ func (im indexManager) getDrainFn(bucketName string, params models.IndexSchemaVa
 			newVamanaFn := func() (cache.Cachable, error) {
 				return vamana.NewIndexVamana(cacheName, *params.VectorVamana, bucket)
 			}
-			go func() {
+			utils.Go(ctx, func() {
 				writeErrC <- im.cx.With(cacheName, false, newVamanaFn, func(cached cache.Cachable) error {
 					vamanaIndex := cached.(*vamana.IndexVamana)
 					/* This update bucket business shouldn't cause a discrepancy
@@ -145,7 +145,7 @@ func (im indexManager) getDrainFn(bucketName string, params models.IndexSchemaVa
 					return <-vamanaIndex.InsertUpdateDelete(ctx, out)
 				})
 				close(writeErrC)
-			}()
+			})
 			return utils.MergeErrorsWithContext(ctx, transformErrC, writeErrC)
 		}
 		// ---------------------------
@@ -156,13 +156,13 @@ func (im indexManager) getDrainFn(bucketName string, params models.IndexSchemaVa
 			newFlatFn := func() (cache.Cachable, error) {
 				return flat.NewIndexFlat(*params.VectorFlat, bucket)
 			}
-			go func() {
+			utils.Go(ctx, func() {
 				writeErrC <- im.cx.With(cacheName, false, newFlatFn, func(cached cache.Cachable) error {
 					flatIndex := cached.(flat.IndexFlat)
 					flatIndex.UpdateBucket(bucket)
 					return <-flatIndex.InsertUpdateDelete(ctx, out)
 				})
-			}()
+			})
 			return utils.MergeErrorsWithContext(ctx, transformErrC, writeErrC)
 		}
 	case models.IndexTypeText:
